@@ -69,6 +69,7 @@ type verifWorld struct {
 	inv   *verifInvalidator
 	lease *verifLease
 	sub   *ChangeSetSubscriber
+	img0  [][]byte
 }
 
 // verifNewStore builds a store on a fresh directory; primary decides whether it holds a lease.
@@ -289,7 +290,8 @@ func verifChainWorld(k int) *verifWorld {
 func verifChain(k int) (*verifWorld, []ltx.Pos) {
 	ctx := context.Background()
 	w := verifNewStore(true)
-	w.verifOpenDB(verifImage("img0", 1, false), 41)
+	w.img0 = verifImage("img0", 1, false)
+	w.verifOpenDB(w.img0, 41)
 	db := w.db
 	chain := []ltx.Pos{db.Pos()}
 	for i := 0; i < k; i++ {
